@@ -426,7 +426,7 @@ fn qd_hess(q: &QD, x: &str, y: &str) -> f64 {
 
 // ------------------------------------------------------------------ execution
 
-fn to_fxrate(q: &Quote) -> Result<FXRate, Fail> {
+pub fn to_fxrate(q: &Quote) -> Result<FXRate, Fail> {
     let num = q
         .num
         .to_number()
@@ -435,7 +435,7 @@ fn to_fxrate(q: &Quote) -> Result<FXRate, Fail> {
         .map_err(|_| HarnessError(format!("FXRate::try_new refused {}{}", q.lhs, q.rhs)).into())
 }
 
-fn ccy(name: &str) -> Result<Ccy, Fail> {
+pub fn ccy(name: &str) -> Result<Ccy, Fail> {
     Ccy::try_new(name).map_err(|_| HarnessError(format!("Ccy::try_new refused {}", name)).into())
 }
 
